@@ -18,6 +18,7 @@ import (
 	authtypes "github.com/cosmos/cosmos-sdk/x/auth/types"
 	consensustypes "github.com/cosmos/cosmos-sdk/x/consensus/types"
 	govv1 "github.com/cosmos/cosmos-sdk/x/gov/types/v1"
+	upgradetypes "github.com/cosmos/cosmos-sdk/x/upgrade/types"
 	tmproto "github.com/cometbft/cometbft/proto/tendermint/types"
 	banktypes "github.com/cosmos/cosmos-sdk/x/bank/types"
 	aoltypes "github.com/medibloc/panacea-core/v2/x/aol/types"
@@ -336,6 +337,15 @@ func (bc *BuildCtx) Build(s *MsgSpec) sdk.Msg {
 		}
 		proposer, _ := sdk.AccAddressFromBech32(s.f("proposer"))
 		m, err := govv1.NewMsgSubmitProposal([]sdk.Msg{inner}, coins(s.Coins), proposer.String(), s.f("metadata"), "consensus parameters", "change block limits")
+		if err != nil {
+			panic(err)
+		}
+		return m
+	case "gov.SubmitUpgrade":
+		h, _ := strconv.ParseInt(s.f("height"), 10, 64)
+		inner := &upgradetypes.MsgSoftwareUpgrade{Authority: sdk.AccAddress(authtypes.NewModuleAddress("gov")).String(), Plan: upgradetypes.Plan{Name: s.f("name"), Height: h, Info: "panasim"}}
+		proposer, _ := sdk.AccAddressFromBech32(s.f("proposer"))
+		m, err := govv1.NewMsgSubmitProposal([]sdk.Msg{inner}, coins(s.Coins), proposer.String(), "", "software upgrade", "upgrade to "+s.f("name"))
 		if err != nil {
 			panic(err)
 		}
